@@ -92,6 +92,8 @@ def run(repo, chk, tier):
     coverage(repo, chk)
     from .common import vector_casts
     vector_casts(repo, chk, 'C05.4c')
+    from .common import narrow_code_buffers
+    narrow_code_buffers(repo, chk, 'C05.4e')
     block_collapse(repo, chk)
 
 
